@@ -1,5 +1,5 @@
 #!/bin/bash
-# usage: verify_seed.sh <Cxx> <a|b> <pkgdir-for-demo> <test pkgs...>
+# usage: [DEMOTAGS='-tags verif'] verify_seed.sh <Cxx> <a|b> <pkgdir-for-demo> <test pkgs...>
 # Confirms a seeded change in the scratch worktree /tmp/mut/<Cxx>: compiles, listed package tests pass with it,
 # demo fails with it and passes without. On success stores it as /verif/seeded/<Cxx><x>/.
 ID=$1; X=$2; PKG=$3; shift 3; TESTS="$@"
@@ -16,9 +16,9 @@ if grep -qE "^(--- FAIL|FAIL)" /tmp/mut/$ID$X.tests.log; then  # re-run once: so
 fi
 FAILS=$(grep -E "^(--- FAIL|FAIL)" /tmp/mut/$ID$X.tests.log | grep -v "TestBridgeCallData\|TestClaimCalldata\|^FAIL$\|FAIL	github.com/agglayer/aggkit/bridgesync	" | head -5)
 cp $O/demo_test.go $PKG/zz_demo_verif_test.go
-go test -count=1 -timeout 10m -run 'Demo|C[0-9][0-9]' ./$PKG/ > /tmp/mut/$ID$X.demo_with.log 2>&1; WITH=$?
+go test $DEMOTAGS -count=1 -timeout 10m -run 'Demo|C[0-9][0-9]' ./$PKG/ > /tmp/mut/$ID$X.demo_with.log 2>&1; WITH=$?
 git checkout -q -- . 
-go test -count=1 -timeout 10m -run 'Demo|C[0-9][0-9]' ./$PKG/ > /tmp/mut/$ID$X.demo_without.log 2>&1; WITHOUT=$?
+go test $DEMOTAGS -count=1 -timeout 10m -run 'Demo|C[0-9][0-9]' ./$PKG/ > /tmp/mut/$ID$X.demo_without.log 2>&1; WITHOUT=$?
 rm -f $PKG/zz_demo_verif_test.go
 git checkout -q -- . && git clean -fdq
 if [ -n "$FAILS" ]; then echo "RESULT $ID$X: existing tests fail with the change: $FAILS"; exit 1; fi
